@@ -32,7 +32,8 @@ RULE = ('Generated histories of emit(to=sid, callback=cb_k) and call() to '
         'contained-exception log is watched); call() result shaping / '
         'TimeoutError. Non-trivial: an ACK whose id is outstanding for a '
         'different client, or a repeated ACK, or a reconnect between emit '
-        'and ACK.')
+        'and ACK.'
+        ' A separate msgpack part sends ACKs whose id is the float / bool / list / map / string / negative form of an outstanding id: never issued, so ignored, without any error other than a rejection.')
 ASSUMPTIONS = [
     'callbacks only on emits addressed to one client',
     'sync call(): the wait primitive is a harness event that pumps the '
